@@ -12,12 +12,15 @@ const minUint = 0
 const maxInt = int(maxUint >> 1)
 const minInt = -maxInt - 1
 
-// Multiplies two non-negative numbers, returning -1 if either is negative or if they would
-// overflow.
+// Multiplies two non-negative numbers, returning -1 if they would overflow. A negative argument
+// (such as the -1 left by an earlier overflow) also yields -1, unless the other argument is zero:
+// zero times any number, however large, is zero.
 func checkedNonNegativeMultiply(a, b int) int {
-	if a < 0 || b < 0 {
+	if a == 0 || b == 0 {
+		return 0
+	} else if a < 0 || b < 0 {
 		return -1
-	} else if a == 0 || b == 0 || a == 1 || b == 1 {
+	} else if a == 1 || b == 1 {
 		return a * b
 	}
 	c := a * b
